@@ -85,7 +85,7 @@ def gen(rng, tier):
         i = rng.randint(k0 - p, k0) if rng.random() < .75 else rng.randint(0, n - 1)
         order = rng.randint(0, p) if rng.random() < .9 else p + rng.randint(1, 2)
         d = dict(p=p, n=n, kv=kv, u=u, i=i, order=order)
-        out.append(Case('bdersone', "bdersone %d %s %d %s %d" % (p, show_list(kv), i, fr(u), order), d))
+        out.append(Case('bdersone', "bdersone %d %s %d %s %d" % (p, show_list(kv), i, fr(u), order), d, tags=(('diagnostic',) if order > p else ())))
     # knot vector generation / normalisation / check, linspace
     for _ in range(40 if tier == 'quick' else 400):
         p = rng.randint(1, 9); n = rng.randint(p + 1, p + 14); c = rng.random() < .7
